@@ -296,6 +296,9 @@ func (gp *GenProgram) setupSpec() {
 			if mr := u.CS.Funcs["Init.memoizedResult"]; mr != nil {
 				mr.Modifies = append(mr.Modifies, m)
 			}
+			if pf := u.CS.Funcs["Init.parse"]; pf != nil { // parse calls a rule
+				pf.Modifies = append(pf.Modifies, m)
+			}
 		}
 	}
 	if gp.Switch {
@@ -555,7 +558,17 @@ func (gp *GenProgram) closureContract(r *PRule, inlined func(string) *PRule) (*F
 	// loop invariants
 	var stars []*PNode
 	gp.Spec.starsInEmissionOrder(r.Body, inlined, &stars)
-	for i, s := range stars {
+	// which loop of the emitted closure is which repetition: by what the loop body does (loopmatch.go); the order of
+	// the rule tree when that gives no answer
+	var perm []int
+	if fi := gp.Unit.Funcs[fc.Key]; fi != nil && fi.Body != nil {
+		perm = gp.matchLoops(fi.Body, stars, inlined)
+	}
+	for i := range stars {
+		s := stars[i]
+		if perm != nil {
+			s = stars[perm[i]]
+		}
 		fc.LoopInv[i] = gp.starInvariant(s, i)
 	}
 	return fc, nil
